@@ -255,6 +255,36 @@ def run(repo, rep, tier):
 
 
 VARIANTS = [
+    T("record-end-next-generator", "model.py", """            end = None
+            # Find next positive offset
+            for i, x in enumerate(offsets[col + 1 :]):
+                if x >= 0:
+                    end = offsets[col + i + 1]
+                    break
+            if end is None:
+                end = len(storage_buffer)
+""", """            end = next((x for x in offsets[col + 1 :] if x >= 0), len(storage_buffer))
+"""),
+    M("record-end-next-generator-unguarded", "model.py", """            end = None
+            # Find next positive offset
+            for i, x in enumerate(offsets[col + 1 :]):
+                if x >= 0:
+                    end = offsets[col + i + 1]
+                    break
+            if end is None:
+                end = len(storage_buffer)
+""", """            end = next((x for x in offsets[col + 1 :]), len(storage_buffer))
+""", "C06.R3"),
+    M("record-end-next-generator-from-own-offset", "model.py", """            end = None
+            # Find next positive offset
+            for i, x in enumerate(offsets[col + 1 :]):
+                if x >= 0:
+                    end = offsets[col + i + 1]
+                    break
+            if end is None:
+                end = len(storage_buffer)
+""", """            end = next((x for x in offsets[col:] if x >= 0), len(storage_buffer))
+""", "C06.R"),
     M("revert-fix-ascending-only", "model.py",
       "                max_key = entry.key\n            self._datalists[table_id][\"by_key\"][entry.key] = entry\n            self._datalists[table_id][\"key_index\"][entry.key] = i\n            value_key = self.value_key(getattr(entry, self._value_attr))\n            self._datalists[table_id][\"by_value\"][value_key] = entry.key\n",
       "                max_key = entry.key\n                self._datalists[table_id][\"by_key\"][entry.key] = entry\n                self._datalists[table_id][\"key_index\"][entry.key] = i\n                value_key = self.value_key(getattr(entry, self._value_attr))\n                self._datalists[table_id][\"by_value\"][value_key] = entry.key\n",
